@@ -5,7 +5,8 @@ tables that are rescaled in place on every evaluation).  Simulated clients issue
 seeded operation sequences against a pool of 1-3 instances -- construct (date
 as float / int / datetime.date / None), magnetic_field with an explicit date,
 with date=None (keep the instance's date), with the date omitted (default),
-reset_coefficients, reassignment of the frame attribute, element reads -- interleaved
+reset_coefficients, reassignment of the frame attribute, glitched queries (non-finite
+place, answer not judged), element reads -- interleaved
 with *calendar faults*:
 clock jumps forwards and backwards by days to years, biased to straddle
 2019-12-31/2020-01-01, 2024-12-31/2025-01-01 and tenth-of-year rounding
@@ -126,6 +127,9 @@ class Check:
                 ops.append({'op': 'read', 'i': i})
             elif r < 0.88:
                 ops.append({'op': 'frame', 'i': i, 'frame': rnd.choice(['NED', 'ENU', 'enu', 'ned'])})     # the documented attribute is reassigned
+            elif r < 0.91:
+                # a glitched query (non-finite place): its own answer is not judged, but it must not poison the object
+                ops.append({'op': 'badquery', 'i': i, 'what': rnd.choice(['lat', 'h', 'lon']), 'value': rnd.choice(['nan', 'inf'])})
             else:
                 ops.append({'op': 'jump', 'to': self._jump_target(rnd)})
         return {'ops': ops}
@@ -225,6 +229,13 @@ class Check:
                     if not close(got[k], val, 1e3):
                         viol.append(v('enu-ned', step, f'ENU {k}={got[k]:.9g} is not the NED twin\'s component {val:.9g}'))
                         return False
+            if abs(lat) == 90:
+                # at a pole H, F and Z are well defined: they must join what is computed a micro-degree away
+                near = reference(m['date'], math.copysign(90.0 - 1e-6, lat), lon, h, m['frame'])
+                for k in ('H', 'F', 'Z'):
+                    if not abs(got[k] - near[k]) <= 1e-4 * max(1e3, abs(near[k])):
+                        viol.append(v('pole-discontinuity', step, f'{k} at latitude {lat} is {got[k]:.9g} but {near[k]:.9g} one micro-degree away'))
+                        return False
             if abs(lon) == 180:
                 other = reference(m['date'], lat, -lon, h, m['frame'])
                 for k in ('X', 'Y', 'Z'):
@@ -291,6 +302,15 @@ class Check:
                         continue
                     if not ok:
                         break
+                elif kind == 'badquery':
+                    bad = float(op['value'])
+                    args = {'lat': 45.0, 'lon': 10.0, 'h': 0.0}
+                    args[op['what']] = bad
+                    try:
+                        inst[i].magnetic_field(args['lat'], args['lon'], args['h'], date=None)
+                    except Exception:       # noqa: BLE001 - refusing a non-finite place is fine
+                        pass
+                    model[i]['expected'] = None
                 elif kind == 'frame':
                     inst[i].frame = op['frame']
                     model[i]['frame'] = op['frame'].upper()
